@@ -463,6 +463,8 @@ int SimulateStm8::run(int max_cycles, int step)
     printf("Running... Press Ctl-C to break.\n");
   }
 
+  stop_running = false;
+
   while (stop_running == false)
   {
     int ret;
